@@ -17,15 +17,42 @@ TOKENS = ["x", "foo_bar", "if", "TRUE", "12", "0x1f", "0b11", "1_0", "2.5", "'s'
           "<*", "*>", "=>", "...", "x...", "a.b"]
 FOLLOW = [" ", "\n", "\r\n", " # c\n", "\t", "(", ")", "[", ",", ";", "+", "<", "=", "", "'q'", "#", "\n\n", "x"]
 
-FAULTS = [  # (tokens of the planted statement, index of the token whose position is reported, kind)
-    ([("undefined_zz_q", "identifier")], 0, "runtime"),
-    ([("error", "keyword"), ("planted", "string")], 0, "runtime"),
-    ([("not", "keyword"), ("5", "int")], 0, "runtime"),
-    ([("1", "int"), ("/", "operator"), ("0", "int")], 1, "runtime"),
-    ([("[", "interpunction"), ("1", "int"), ("]", "interpunction"), ("[", "interpunction"), ("7", "int"), ("]", "interpunction")], 3, "runtime"),
-    ([(")", "interpunction")], 0, "syntax"),
-    ([("then", "keyword")], 0, "syntax"),
+def _f(text, accept, kind="runtime"):
+    from vlib import lexrender
+    return (text, accept, kind)
+
+
+# (statement text, indices of the tokens at which the construct or the offending token begins, kind). Where the language
+# reports a call at its opening parenthesis or an operation at its operator, both that token and the first token of the
+# construct are accepted (the property says "the offending token or construct"): the check never demands more.
+FAULTS = [
+    _f("undefined_zz_q", "undefined_zz_q"), _f("error 'planted'", "error"), _f("not 5", "not 5"), _f("1 / 0", "1 /"), _f("[1][7]", "[ 7"),
+    _f("if 1 then 2 else 3", "if 1"), _f("if TRUE then undefined_zz_q else 3", "undefined_zz_q"), _f("while 1 do 2 end", "while 1"),
+    _f("for q_z in 5 do 2 end", "for 5"), _f("1 and TRUE", "1 and"), _f("TRUE and 1", "TRUE and 1"), _f("FALSE or 1", "FALSE or 1"),
+    _f("[1, 2]['x']", "[ x"), _f("f_undefined_q(1)", "f_undefined_q ("), _f("- 'a'", "- a"), _f("'a' * 'b'", "a * b"),
+    _f("def [a_q, b_q] = 5", "def [ 5"), _f("x_undef_q += 1", "x_undef_q +="), _f("x_undef_q = 1", "x_undef_q ="),
+    _f("require NoSuchModuleZq", "require NoSuchModuleZq"), _f("[1 for x_q in 5]", "[ 1 5"), _f("<<1 for x_q in 5>>", "<< 1 5"),
+    _f("<<<1 => 2 for x_q in 5>>>", "<<< 1 5"), _f("1 is undefined_zz_q", "1 is undefined_zz_q"), _f("<* a = 1 *> -> b()", "<* -> b ("),
+    _f("[1] !> undefined_zz_q()", "!> undefined_zz_q ("), _f("[a_u, b_u] = [1, 2]", "[ a_u"), _f("<<<1 => 2>>>[5]", "<<< [ 5"),
+    _f("'abc'[10]", "abc [ 10"), _f("do error 1 finally undefined_zz_q end", "undefined_zz_q"), _f("date('x')", "date ( x"),
+    _f("[1, undefined_zz_q]", "undefined_zz_q"), _f("<<1, undefined_zz_q>>", "undefined_zz_q"), _f("<<<1 => undefined_zz_q>>>", "undefined_zz_q"),
+    _f("(fn(a) a + undefined_zz_q)(1)", "undefined_zz_q"), _f("length(1, 2, 3)", "length ("), _f("length(zz = 1)", "length ("),
+    _f("return undefined_zz_q", "undefined_zz_q"), _f("def y_q = undefined_zz_q", "undefined_zz_q"), _f("[1, 2][0] = undefined_zz_q", "undefined_zz_q"),
+    _f("[3, 2][5] = 1", "[ 5 ="),
+    _f(")", ")", "syntax"), _f("then", "then", "syntax"), _f("def 5 = 1", "5", "syntax"), _f("for in", "in", "syntax"), _f("if 1 2", "2", "syntax"),
+    _f("f(... 5)", "... 5", "syntax"), _f("1 if", "if", "syntax"), _f("def x_q 1", "1", "syntax"), _f("'\\xZZ'", "'\\xZZ'", "syntax"),
+    _f("0x", "0x", "syntax"), _f("//[//", "//[//", "syntax"), _f("def if = 1", "if", "syntax"), _f("checkerlang_q = 1", "checkerlang_q =", "syntax"),
 ]
+FAULTS = [f for f in FAULTS if f[2] != "none"]
+
+
+def fault_tokens(text):
+    """tokens of a fault statement; for texts the lexer rejects (lexical faults) one raw token"""
+    from ckl.errors import CklSyntaxError
+    try:
+        return [(v, ty) for v, ty, _, _ in lexrender.real_tokens(text)]
+    except CklSyntaxError:
+        return [(text, "raw")]
 
 
 def statement_boundaries(tokens):
@@ -83,6 +110,20 @@ def main(tier, seed, replay=None):
                     continue
                 rep.count()
                 # the token that starts at the expected offset must be reported there
+                # ... and so must a token following the follower (look-ahead must not disturb the counters)
+                s2 = s + "q_z"
+                try:
+                    toks2 = Lexer(s2, "name").scan().tokens
+                except CklSyntaxError:
+                    toks2 = []
+                if toks2 and toks2[-1].value == "q_z":
+                    texts.append(s2)
+                    rep.count()
+                    l2 = 1 + s.count("\n")
+                    c2 = len(s) - (s.rfind("\n") + 1) + 1
+                    if (toks2[-1].pos.line, toks2[-1].pos.column) != (l2, c2):
+                        dis += 1
+                        rep.violation("input", "token q_z after %r reported at %s, it starts at %d:%d" % (s, toks2[-1].pos, l2, c2), check="token-after", text=s2)
                 skip = 1 if lead.startswith("a") else 0
                 if len(toks) > skip:
                     tk = toks[skip]
@@ -92,26 +133,29 @@ def main(tier, seed, replay=None):
     rep.oblige("%d token x follower texts: every token is reported at its true line and column" % len(texts), dis == 0, "%d wrong" % dis)
     # (2) planted faults under random layouts
     I = impl.new_interpreter(False, False)
-    nprog = 150 if tier != "thorough" else 1500
+    nprog = 400 if tier != "thorough" else 4000
     pd = 0
     done = 0
+    used = {}
     while done < nprog:
         p = progen.generate(rnd, rnd.choice(["mix", "C04", "C03"]), 500)[0]
         I.environment = I.base_environment.newEnv()
         if impl.run_src(I, p)[0] != "val":
             continue
         toks = [(v, ty) for v, ty, _, _ in lexrender.real_tokens(p)]
-        fault, which, kind = rnd.choice(FAULTS)
+        ftext, accept, kind = rnd.choice(FAULTS)
+        fault = fault_tokens(ftext)
+        which = 0
         inside = rnd.random() < 0.3 and kind == "runtime"
         b = rnd.choice(statement_boundaries(toks))
         if inside:
             planted = [("def", "keyword"), ("pf_q", "identifier"), ("(", "interpunction"), (")", "interpunction"), ("do", "keyword")] + fault + \
                 [("end", "keyword"), (";", "interpunction"), ("pf_q", "identifier"), ("(", "interpunction"), (")", "interpunction"), (";", "interpunction")]
-            widx = b + 5 + which
+            base = b + 5
             callidx = b + 5 + len(fault) + 3     # the "(" of the call
         else:
             planted = fault + [(";", "interpunction")]
-            widx = b + which
+            base = b
             callidx = None
         newtoks = toks[:b] + planted + toks[b:]
         txt, pos = lexrender.render(newtoks, rnd, literal_spelling=False, parens=False, trailing_semicolon=False)
@@ -127,11 +171,13 @@ def main(tier, seed, replay=None):
             got = e
         except BaseException as e:
             got = e
-        want_line = pos[widx][0]
-        if not isinstance(got, (CklRuntimeError, CklSyntaxError)) or got.pos is None or got.pos.filename != "prog.ckl" or got.pos.line != want_line:
+        acc = accept.split(" ")
+        want_lines = sorted({pos[base + k][0] for k, t in enumerate(fault) if t[0] in acc})
+        used[ftext] = used.get(ftext, 0) + 1
+        if not isinstance(got, (CklRuntimeError, CklSyntaxError)) or got.pos is None or got.pos.filename != "prog.ckl" or got.pos.line not in want_lines:
             pd += 1
-            rep.violation("input", "planted %s fault at line %d of %r reported as %s" % (kind, want_line, txt, getattr(got, "pos", got)),
-                          check="planted", text=txt, want_line=want_line)
+            rep.violation("input", "planted fault %r (lines %s of the text) reported as %s in %r" % (ftext, want_lines, getattr(got, "pos", got), txt),
+                          check="planted", fault=ftext, text=txt, want_lines=want_lines)
         elif callidx is not None:
             st = " ".join(got.stacktrace)
             wl = pos[callidx][0]
